@@ -70,9 +70,11 @@ CHECKS = {
          "Counters read inside Emit are conservative upper bounds.", "3/C19"),
 }
 
-PENDING = {
- "C20": "check not built yet in this round (planned in DESIGN.md section 3/C20: source-map vs base structural comparison, modifier vs base differential run)",
-}
+CHECKS["C20"] = ("tool+gen", T+"(a) every accepted file generated in base and source-map mode, outputs parsed without comments and compared structurally; " + G + "(b) flows restricted to Params/Results/Concurrency/plain Tasks generated in modifier and base mode, executed under identical scenarios (ok/error/panic per task) against the same reference interpreter",
+         "Source-map output structurally identical to base output on the whole corpus; modifier output compiled and agreed with the reference (hence with base) on every execution.",
+         "Modifier agreement is established through agreement of both modes with one reference under identical scenarios.", "3/C20")
+
+PENDING = {}
 
 def main():
     checks = []
@@ -102,9 +104,9 @@ def main():
         "engines": [
             {"name": "sched", "path": "/verif/sched", "serves_properties": ["C01","C03","C05","C06","C07","C08","C09","C12","C19"],
              "kind_free_text": "scheduler package under generated scenario stress; boundary monitors in job bodies, Enqueue/Wait, state emitter; verif hooks for perturbation"},
-            {"name": "gen", "path": "/verif/g", "serves_properties": ["C01","C02","C03","C04","C05","C06","C07","C08","C09","C10","C11","C12","C15","C18"],
+            {"name": "gen", "path": "/verif/g", "serves_properties": ["C01","C02","C03","C04","C05","C06","C07","C08","C09","C10","C11","C12","C15","C18","C20"],
              "kind_free_text": "abstract programs printed as cff-tagged packages, compiled by the cff binary built from the working tree, executed under scenarios against a reference interpreter (prog), runtime support (rt), runner (grun)"},
-            {"name": "tool", "path": "/verif/cmd/vcheck", "serves_properties": ["C13","C14","C16","C17"],
+            {"name": "tool", "path": "/verif/cmd/vcheck", "serves_properties": ["C13","C14","C16","C17","C20"],
              "kind_free_text": "the cff binary as observed system: exit status, stderr, files written, bytes/AST/type-check of outputs"},
         ],
         "checks": checks,
